@@ -20,7 +20,7 @@ func init() {
 	register(&Check{
 		ID:    "C05",
 		Title: "Decoding terminates with work and memory bounded by the frame size",
-		Level: "exploration",
+		Level: "model_checking",
 		Rule: "the input families F1-F5 of C04 plus long members of the repeated-section families (1 000 and 10 000 filters / reason codes / user properties / subscription identifiers - identical elements, pairwise distinct elements, and pairwise distinct elements colliding under the multiply-by-31 string hash: valid, truncated at every field boundary of the last three elements, and with inconsistent declared lengths), all on the statement-instrumented build. " +
 			"Every stream-corpus frame is also decoded and kept while all the others are decoded three times after it: its retained size and list lengths must not grow. Deterministic oracles with fixed constants: (1) statement points executed <= 2000 + 200*len(input) — an input that loops is cut off by the step budget and reported, never waited for; (2) deep retained size of the returned packet <= 4 KiB + 64*len(input) and every list accessor no longer than the input; (3) bytes allocated during the call <= 16 KiB + 256*declared length (measured on every length-edited and long input and on one input per (family, type, length) class of the other families in the quick tier, on every input in the thorough tier); (4) steps(10 000 elements)/steps(1 000 elements) <= 12. " +
 			"distinct_nontrivial = distinct inputs (content hash) whose decoding entered a body.",
